@@ -334,7 +334,7 @@ def run(rep, model, tier, seed):
     nmax = 7 if tier == "quick" else 12
     rep.rule = rep.rule % nmax
     plan = ([1, 2, 3, 4, 6, 6, 7, 7, 7, 7] if tier == "quick" else
-            [1, 2, 3, 4, 5] * 6 + [6, 7, 8] * 25 + [9, 10, 11, 12] * 10)
+            [1, 2, 3, 4, 5] * 4 + [6, 7, 8] * 14 + [9, 10, 11, 12] * 5)
     broke = False
     for i, n in enumerate(plan):
         before = len(rep.disagreements)
